@@ -286,11 +286,11 @@ def search(ctx):
             aff = np.clip(aff, eps, 1 - eps)
         sal, skind = tu.gen_saliency(rng, (F, N))
         if rng.random() < 0.7:
-            wca = [-1, (-1,), -3, (-3,), (-3, -1), -2, 1, 2, 0, (0, 2), (-2,), (-3, -2, -1)][int(rng.integers(12))]
+            wca = [-1, (-1,), -3, (-3,), (-3, -1), -2, 1, 2, 0, (0, 2), (-2,), (-3, -2, -1), (1,), (1, 2), (0, 1, 2), (0, 1), (-3, 1)][int(rng.integers(17))]
         else:
             aff = aff[0]
             sal = None if sal is None else sal[0]
-            wca = [-1, (-1,), -2, 0, 1, (-2,)][int(rng.integers(6))]
+            wca = [-1, (-1,), -2, 0, 1, (-2,), (0,), (0, 1), (1,)][int(rng.integers(9))]
         ctx.count(f'weight-wca:{wca}-sal:{skind}')
         ctx.run(mixture_weight_domain, affiliation=aff, saliency=sal,
                 weight_constant_axis=list(wca) if isinstance(wca, tuple) else wca, eps=eps)
